@@ -5,6 +5,7 @@ import (
 	"errors"
 	"fmt"
 	"io"
+	"math"
 	"strings"
 	"time"
 
@@ -23,6 +24,9 @@ func c16(tier string) []*explore.Scenario {
 	var out []*explore.Scenario
 	for _, ic := range []string{"none", "rename", "reject", "nat"} {
 		out = append(out, c16Routing(ic, 3))
+	}
+	for rot := 0; rot < 8; rot++ {
+		out = append(out, c16RoutingIds([]string{"none", "nat", "rename"}[rot%3], 2, rot))
 	}
 	bound := 1
 	if tier == "thorough" {
@@ -78,10 +82,18 @@ func c16(tier string) []*explore.Scenario {
 
 // c16Routing: raw peers a, b (attached) and c (dialable); every envelope
 // sequence of length <= L over source x destination x return-route shapes.
-func c16Routing(intercept string, L int) *explore.Scenario {
+func c16Routing(intercept string, L int) *explore.Scenario { return c16RoutingIds(intercept, L, -1) }
+
+// rot >= 0: the envelopes carry boundary stream ids (0, 127, 128, 2^32, 2^64-1, ...) starting at position rot of the table
+func c16RoutingIds(intercept string, L int, rot int) *explore.Scenario {
 	fam := "C16/routing"
+	name := fmt.Sprintf("C16/routing/intercept=%s/len<=%d", intercept, L)
+	boundary := []uint64{0, 1 << 32, math.MaxUint64, 127, 128, 1<<63 - 1, 1 << 63, 1}
+	if rot >= 0 {
+		name += fmt.Sprintf("/boundary-ids-from-%d", rot)
+	}
 	return &explore.Scenario{
-		Name: fmt.Sprintf("C16/routing/intercept=%s/len<=%d", intercept, L), Family: fam, Prop: "C16", Bound: 0, MaxExecs: 3000000,
+		Name: name, Family: fam, Prop: "C16", Bound: 0, MaxExecs: 3000000,
 		Run: func() {
 			var ic func(h *goatorepo.RequestHeader) error
 			switch intercept {
@@ -136,7 +148,11 @@ func c16Routing(intercept string, L int) *explore.Scenario {
 				dst := dsts[(c/len(srcs))%len(dsts)]
 				route := c/(len(srcs)*len(dsts)) == 1
 				prerec := c/(len(srcs)*len(dsts)) == 2 // arrives with a route record already (it came through another relay)
-				rpc := &env.Rpc{Id: uint64(100 + pos), Header: &goatorepo.RequestHeader{Method: "/x/Y", Source: src, Destination: dst,
+				id := uint64(100 + pos)
+				if rot >= 0 {
+					id = boundary[(rot+pos)%len(boundary)]
+				}
+				rpc := &env.Rpc{Id: id, Header: &goatorepo.RequestHeader{Method: "/x/Y", Source: src, Destination: dst,
 					Headers: []*goatorepo.KeyValue{{Key: "k", Value: fmt.Sprint(pos)}}}, Body: &goatorepo.Body{Data: []byte(fmt.Sprintf("payload-%d", pos))}}
 				expect := dst
 				if prerec {
